@@ -1,5 +1,97 @@
-"""thorough tier: mutation self-test of the extracted text, Kani harnesses, witness replays"""
+"""thorough tier: (1) replay of every known-finding witness and of every repaired defect on the
+REAL code (replay crate built against /repo), (2) mutation self-test of the extracted text (the
+contracts must turn the named obligation red), (3) Kani harnesses (bit-level, full domain)."""
+import concurrent.futures
+import importlib
+import json
+import os
+import subprocess
+import time
+
+from .unit import VERIF, REPO, Undecided
+
+
+def _build_replay(scratch):
+    tgt = os.path.join(scratch, 'replay_target')
+    env = dict(os.environ, CARGO_TARGET_DIR=tgt, CARGO_NET_OFFLINE='true')
+    p = subprocess.run(['cargo', 'build', '--offline', '--bin', 'kf'], cwd=os.path.join(VERIF, 'replay'), env=env,
+                       stdout=subprocess.PIPE, stderr=subprocess.STDOUT, text=True, timeout=1200)
+    exe = os.path.join(tgt, 'debug', 'kf')
+    return (exe if p.returncode == 0 and os.path.exists(exe) else None), p.stdout[-3000:]
 
 
 def run(prop, spec, runs, scratch):
-    return {}, 0
+    from . import driver
+    extra = {}
+    status = 0
+    viol = []
+    kf = driver.load_known_findings()
+    # ---- (1) witnesses on the real code
+    exe, log = _build_replay(scratch)
+    replays = []
+    if exe is None:
+        extra['replay_build_error'] = log
+        status = 2
+    else:
+        for f in kf.get('findings', []):
+            if f.get('property') != prop:
+                continue
+            p = subprocess.run([exe, f['id']], stdout=subprocess.PIPE, stderr=subprocess.STDOUT, text=True, timeout=120)
+            replays.append(dict(finding=f['id'], exit=p.returncode, output=p.stdout.strip()[:600]))
+            if p.returncode == 3:
+                print('NOTE: known finding %s no longer reproduces on the real code (stale entry?): %s' % (f['id'], p.stdout.strip()[:200]))
+            elif p.returncode != 0:
+                status = 2
+        p = subprocess.run([exe, '--fixed', '--all'], stdout=subprocess.PIPE, stderr=subprocess.STDOUT, text=True, timeout=300)
+        for ln in p.stdout.split('\n'):
+            if ln.startswith('DEFECT-BACK') and (' %s-' % prop) in (' ' + ln.split()[1]):
+                rid = ln.split()[1].rstrip(':')
+                path = os.path.join(VERIF, 'replays', prop, 'fixed_%s.json' % rid)
+                os.makedirs(os.path.dirname(path), exist_ok=True)
+                json.dump(dict(property=prop, obligation='replay::fixed::%s' % rid, kind='regression-of-repaired-defect',
+                               counterexample=ln, replayed_on_real_code=True, command='replay/src/bin/kf.rs --fixed ' + rid), open(path, 'w'), indent=1)
+                viol.append('VIOLATION property=%s replay=%s' % (prop, path))
+            if ln.startswith(('DEFECT-BACK', 'STILL-FIXED')):
+                replays.append(dict(fixed=ln[:400]))
+    extra['witness_replays_on_real_code'] = replays
+    # ---- (2) mutation self-test of the extracted text
+    muts = []
+    try:
+        import units.mutants as M
+        importlib.reload(M)
+        todo = [m for m in M.MUTANTS if prop in m['props'] and m['unit'] in spec['units']]
+    except Exception as ex:  # pragma: no cover
+        todo = []
+        extra['mutants_error'] = repr(ex)
+
+    def one(m):
+        d = os.path.join(scratch, 'mut_%s' % abs(hash(m['name'])))
+        os.makedirs(d, exist_ok=True)
+        try:
+            ur = driver.run_unit(m['unit'], d, mutate=(m['fn'], m['old'], m['new']))
+        except Exception as ex:
+            return dict(mutant=m['name'], verdict='error', detail=repr(ex))
+        if ur.undecided and not ur.errors:
+            return dict(mutant=m['name'], verdict='undecided', detail=ur.undecided[0][:300])
+        hit = [e for e in ur.errors if m.get('expect', m['fn']).split('::')[-1] in e['function'] and driver.is_violation_kind(e)]
+        return dict(mutant=m['name'], verdict='killed' if hit else 'SURVIVED',
+                    failing=[driver.obligation_name(e) for e in hit][:3])
+    with concurrent.futures.ThreadPoolExecutor(max_workers=6) as ex:
+        muts = list(ex.map(one, todo))
+    extra['mutation_self_test'] = muts
+    for r in muts:
+        if r['verdict'] != 'killed':
+            print('UNDECIDED: mutation self-test: mutant %s %s (a contract that should pin this behaviour does not)' % (r['mutant'], r['verdict']))
+            status = 2
+    # ---- (3) Kani
+    try:
+        from . import kani
+        kres = kani.run(prop, spec, scratch)
+        extra.update(kres.get('extra', {}))
+        viol += kres.get('violations', [])
+        if kres.get('status') == 2:
+            status = 2
+    except ImportError:
+        pass
+    extra['violation_lines'] = viol
+    return extra, status
